@@ -39,14 +39,14 @@ var (
 	c10rVSeen = map[string]int{}
 )
 
-// c10rV keeps at most two witnesses per signature, counts every occurrence.
+// c10rV keeps one witness per signature, counts every occurrence.
 func c10rV(r *verifkit.Run, sig string, witness any) {
 	c10rVMu.Lock()
 	c10rVSeen[sig]++
 	n := c10rVSeen[sig]
 	c10rVMu.Unlock()
 	r.Count("viol."+sig, 1)
-	if n <= 2 {
+	if n == 1 {
 		r.Violation(sig, witness)
 	}
 }
